@@ -1,16 +1,16 @@
 # Per-property configuration of the driver.
 REAL_TIMER = ['github.com/acquirecloud/golibs/timeout (rewritten copy of the current working tree: cooperative mutex, tape-driven select, zsimrt.Go)']
-SIM_COMMON = ['goroutine scheduling (seeded scheduler over zsimrt yields)', 'clock and timers (testing/synctest fake clock, moved only by the scheduler)']
+SIM_COMMON = ['goroutine scheduling (seeded scheduler over zsimrt yields; in 1/8 of the runs a scheduling point before every statement, read-modify-write statements split into load/store)', 'clock and timers (testing/synctest fake clock, moved only by the scheduler; timer channels with the semantics of Go >= 1.23 or, in 1/3 of the runs, of earlier releases)', 'lock discipline monitor (lockset per map held in a struct field and per object documented as unsafe for concurrent use)']
 
-REAL_LOCK = ['kvs/distlock (rewritten copy)', 'kvs/inmem (rewritten copy) as the shared storage', 'timeout (rewritten copy) for lease timers', 'chans (rewritten copy)']
-SIM_LOCK = SIM_COMMON + ['storage seam: per-node kvs.Storage wrapper that parks before and after every call and injects request-lost / reply-lost / partition / stall faults by call ordinal', 'context cancellation (canceller tasks released by the scheduler, or simulated timers)']
+REAL_LOCK = ['kvs/distlock (rewritten copy)', 'kvs/inmem (rewritten copy) or kvs/redis + go-redis + miniredis as the shared storage', 'timeout (rewritten copy) for lease timers, shared with background users in some runs', 'chans (rewritten copy)', 'oklog/ulid (rewritten copy of the dependency)']
+SIM_LOCK = SIM_COMMON + ['storage seam: per-node kvs.Storage wrapper that parks before and after every call and injects request-lost / reply-lost / partition / stall faults by call ordinal, slow replies, wrapped errors, outages of one node', 'context cancellation (canceller tasks released by the scheduler, or simulated timers)']
 ASSUME_LOCK = ['scheduler fairness bound F', 'interleavings at yield granularity (storage call boundaries, lock/channel/atomic/select inside distlock, inmem, timeout)', 'per-step jitter is capped at lease/(16*F) so the scheduler cannot starve a renewal past its lease']
 
-REAL_KV = ['kvs/inmem (rewritten copy)', 'kvs/redis client code (rewritten copy) + the real go-redis v8 client', 'ulidutils / oklog ulid (version generation)']
-SIM_KV = SIM_COMMON + ['Redis server: in-process miniredis (command semantics are its own), TCP listener closed', 'network: net.Pipe pairs with pump goroutines that park before every command delivery and every reply (command-level interleaving between connections)', 'Redis TTL clock: slaved to the simulated clock before every delivered command']
+REAL_KV = ['kvs/inmem (rewritten copy)', 'kvs/redis client code (rewritten copy) + the real go-redis v8 client', 'ulidutils (rewritten copy) + oklog/ulid (rewritten copy of the dependency: version generation)']
+SIM_KV = SIM_COMMON + ['Redis server: in-process miniredis (command semantics are its own), TCP listener closed', 'network: net.Pipe pairs with pump goroutines that park before every command delivery and every reply (command-level interleaving between connections; optional latency per command)', 'Redis TTL clock: slaved to the simulated clock before every delivered command']
 ASSUME_KV = ['scheduler fairness bound F', 'interleavings at yield granularity: every lock/select/channel point in inmem; every command and reply delivery for Redis', 'miniredis stands in for Redis (as in the repository\'s own tests)']
 
-REAL_LRU = ['container/lru (rewritten copy: cooperative mutex, in-flight channel wait through zsimrt.Recv)', 'container/iterable Map (unmodified apart from a test-only node counter)']
+REAL_LRU = ['container/lru (rewritten copy: cooperative mutex, in-flight channel wait through zsimrt.Recv)', 'container/iterable Map (rewritten copy; test-only node counter)']
 SIM_LRU = SIM_COMMON + ['create function and delete callback (harness functions: park at entry/exit, sleep simulated time, fail by plan, record arguments)']
 
 PROPS = {
